@@ -32,8 +32,8 @@ prop("C04", "exploration",
       "reject non-root parents and bad signatures (the statement is silent on roots)",
       "ground truth of the forger is cross-checked against crypto/ed25519 and crypto/sha3 of the standard library at every use; "
       "forged bytes are self-tested to be identical to what the issuing functions emit"],
-     [dict(name="forest", pkg="certs", run="^TestVerifC04(Forest|Issued)$", shards=dict(quick=12, thorough=16), thorough_scale=100),
-      dict(name="enum", pkg="certs", run="^TestVerifC04(BitFlips|Substitutions)$", shards=dict(quick=8, thorough=16), thorough_scale=100)],
+     [dict(name="forest", pkg="certs", run="^TestVerifC04(Forest|Issued)$", shards=dict(quick=12, thorough=16), thorough_scale=40),
+      dict(name="enum", pkg="certs", run="^TestVerifC04(BitFlips|Substitutions)$", shards=dict(quick=8, thorough=16), thorough_scale=40)],
      exhaustive_core=True,
      text="Model-based search in both directions: forged certificate forests with drawn inconsistencies are queried through a "
           "sequence of VerifyLeaf / VerifyParent / AddCertificate calls on one Store and every answer is compared with a stateless "
